@@ -9,6 +9,7 @@ def run(chk):
     chk.lean_obligations()
     gc.run_get_gls(chk, 'replay')
     gc.run_phybo_modes(chk)
+    gc.run_phybo_wordlist(chk)
 
 
 def replay(chk, path):
